@@ -714,12 +714,13 @@ func (s *Session) next(i bool) *com.Packet {
 	if s.proxy != nil && s.proxy.IsActive() {
 		n.Tags = s.proxy.tags()
 	}
-	// KeyCrypt: A re-key Packet (ID zero with the Crypt flag) must always be sent
-	//           on its own, even if something was queued after it was picked.
-	//           The server only acts on the Crypt flag of the top-level Packet,
-	//           so a re-key batched into a Multi Packet is ignored by the server
-	//           while 'keyCheckSync' still swaps our side to the new key.
-	if (len(s.send) == 0 || (n.ID == 0 && n.Flags&com.FlagCrypt != 0)) && verifyPacket(n, s.ID) {
+	// KeyCrypt: A Packet that carries key material (the Crypt flag: a re-key or a
+	//           re-registration hello) must always be sent on its own, even if
+	//           something was queued after it was picked. The server only acts
+	//           on the Crypt flag of the top-level Packet, so a re-key batched
+	//           into a Multi Packet is ignored by the server while 'keyCheckSync'
+	//           still swaps our side to the new key.
+	if (len(s.send) == 0 || n.Flags&com.FlagCrypt != 0) && verifyPacket(n, s.ID) {
 		s.accept(n.Job)
 		s.state.SetLast(0)
 		return n
